@@ -76,7 +76,7 @@ int main(int argc, char **argv)
     snprintf(path, sizeof path, "%s/hist.nc", argv[2]);
     setenv("PNETCDF_SAFE_MODE", "0", 1);
 
-    int ncid = -1, dt = 0, dx, vr = 0, vq, vf = 0, fmt = 1, tmo = 20, active = 0, naux = 0;
+    int ncid = -1, dt = 0, dx, vr = 0, vq, vs = 0, vf = 0, fmt = 1, tmo = 20, active = 0, naux = 0;
     int reqid[MAXID];
     MPI_Info info = MPI_INFO_NULL;
     static int bufs[MAXID][NX];
@@ -101,6 +101,7 @@ int main(int argc, char **argv)
             dims[0] = dt; dims[1] = dx;
             ncmpi_def_var(ncid, "rvar", NC_INT, 2, dims, &vr); ncmpi_def_var_fill(ncid, vr, 0, NULL);
             ncmpi_def_var(ncid, "qvar", NC_INT, 2, dims, &vq);
+            ncmpi_def_var(ncid, "svar", NC_SHORT, 2, dims, &vs);     /* target of the puts with an out-of-range element (class R) */
             ncmpi_def_var(ncid, "fvar", NC_INT, 1, &dims[1], &vf);
             ncmpi_enddef(ncid);
             if (nr0 > 0) {      /* initial records, then close and reopen so that the history starts from a file with nr0 records */
@@ -109,7 +110,7 @@ int main(int argc, char **argv)
             }
             ncmpi_close(ncid);
             ncmpi_open(MPI_COMM_WORLD, path, NC_WRITE, info, &ncid);
-            ncmpi_inq_unlimdim(ncid, &dt); ncmpi_inq_varid(ncid, "rvar", &vr); ncmpi_inq_varid(ncid, "fvar", &vf);
+            ncmpi_inq_unlimdim(ncid, &dt); ncmpi_inq_varid(ncid, "rvar", &vr); ncmpi_inq_varid(ncid, "fvar", &vf); ncmpi_inq_varid(ncid, "svar", &vs);
             continue;
         }
         if (!active) continue;
@@ -133,27 +134,44 @@ int main(int argc, char **argv)
         char mcls = 0; long marg = 0;
         if (mine) { char c[8] = ""; sscanf(mine, " %7s %ld", c, &marg); mcls = c[0]; strncpy(rest, mine, sizeof rest - 1); }
         int col = rank % NX;
+        /* class R = a valid request whose value does not fit the NC_SHORT variable svar: NC_ERANGE is returned, the data are
+           written and the record count advances exactly as for NC_NOERR */
+        int big = 100000;
         if (!strcmp(op, "putAll")) {
-            MPI_Offset st[2] = {mcls == 'V' ? marg - 1 : 0, col}, ct[2] = {1, 1}; int v = 100 + rank;
+            MPI_Offset st[2] = {(mcls == 'V' || mcls == 'R') ? marg - 1 : 0, col}, ct[2] = {1, 1}; int v = 100 + rank;
             if (mcls == 'Z') ct[0] = 0;
             if (mcls == 'E') ct[1] = NX + 5;
             if (mcls == 'D') rc = ncmpi_put_vara_all(ncid, vr, st, ct, &v, 3, MPI_INT);
+            else if (mcls == 'R') { MPI_Offset sd[2] = {1, 1}; rc = (marg % 2) ? ncmpi_put_vara_int_all(ncid, vs, st, ct, &big) : ncmpi_put_vars_int_all(ncid, vs, st, ct, sd, &big); }
             else rc = ncmpi_put_vara_int_all(ncid, vr, st, ct, &v);
         } else if (!strcmp(op, "vardAll")) {
             MPI_Offset recsize = 0, bc = 1; MPI_Datatype ft, bt = MPI_INT, dtp = MPI_DATATYPE_NULL; int bl[1] = {1}; MPI_Aint dp[1]; int v = 200 + rank;
             ncmpi_inq_recsize(ncid, &recsize);
-            dp[0] = (MPI_Aint)((mcls == 'E' ? 0 : marg - 1) * recsize + col * 4);
-            MPI_Type_create_hindexed(1, bl, dp, MPI_INT, &ft); MPI_Type_commit(&ft);
+            dp[0] = (MPI_Aint)((mcls == 'E' ? 0 : marg - 1) * recsize + col * (mcls == 'R' ? 2 : 4));
+            MPI_Type_create_hindexed(1, bl, dp, mcls == 'R' ? MPI_SHORT : MPI_INT, &ft); MPI_Type_commit(&ft);
             if (mcls == 'N') bc = 0;
             if (mcls == 'E') { MPI_Type_contiguous(1, MPI_INT, &dtp); MPI_Type_commit(&dtp); bt = dtp; bc = NC_COUNT_IGNORE; }
-            rc = ncmpi_put_vard_all(ncid, vr, ft, &v, bc, bt);
+            rc = (mcls == 'R') ? ncmpi_put_vard_all(ncid, vs, ft, &big, 1, MPI_INT) : ncmpi_put_vard_all(ncid, vr, ft, &v, bc, bt);
             MPI_Type_free(&ft); if (dtp != MPI_DATATYPE_NULL) MPI_Type_free(&dtp);
-        } else if (!strcmp(op, "putIndep")) {
-            if (rank == a1) { MPI_Offset st[2] = {a2 - 1, col}, ct[2] = {1, 1}; int v = 300 + rank; rc = ncmpi_put_vara_int(ncid, vr, st, ct, &v); }
+        } else if (!strcmp(op, "putIndep") || !strcmp(op, "vardIndep")) {
+            int isR = strstr(line, " R") != NULL, isD = !strcmp(op, "vardIndep");
+            if (rank == a1) {
+                MPI_Offset st[2] = {a2 - 1, col}, ct[2] = {1, 1}; int v = 300 + rank;
+                if (!isD) rc = isR ? ncmpi_put_vara_int(ncid, vs, st, ct, &big) : ncmpi_put_vara_int(ncid, vr, st, ct, &v);
+                else {
+                    MPI_Offset recsize = 0; MPI_Datatype ft; int bl[1] = {1}; MPI_Aint dp[1];
+                    ncmpi_inq_recsize(ncid, &recsize);
+                    dp[0] = (MPI_Aint)((a2 - 1) * recsize + col * (isR ? 2 : 4));
+                    MPI_Type_create_hindexed(1, bl, dp, isR ? MPI_SHORT : MPI_INT, &ft); MPI_Type_commit(&ft);
+                    rc = isR ? ncmpi_put_vard(ncid, vs, ft, &big, 1, MPI_INT) : ncmpi_put_vard(ncid, vr, ft, &v, 1, MPI_INT);
+                    MPI_Type_free(&ft);
+                }
+            }
         } else if (!strcmp(op, "iput")) {
+            int isR = strstr(line, " R") != NULL;
             if (rank == a1 && a2 >= 0 && a2 < MAXID) {
-                bufs[a2][0] = 400 + (int)a2;
-                if (a3) { MPI_Offset st[2] = {a4 - 1, col}, ct[2] = {1, 1}; rc = ncmpi_iput_vara_int(ncid, vr, st, ct, bufs[a2], &reqid[a2]); }
+                bufs[a2][0] = isR ? big : 400 + (int)a2;
+                if (a3) { MPI_Offset st[2] = {a4 - 1, col}, ct[2] = {1, 1}; rc = ncmpi_iput_vara_int(ncid, isR ? vs : vr, st, ct, bufs[a2], &reqid[a2]); }
                 else { MPI_Offset st[1] = {col}, ct[1] = {1}; rc = ncmpi_iput_vara_int(ncid, vf, st, ct, bufs[a2], &reqid[a2]); }
             }
         } else if (!strcmp(op, "waitAll") || !strcmp(op, "wait")) {
@@ -189,7 +207,7 @@ int main(int argc, char **argv)
             rc = ncmpi_close(ncid);
             for (i = 0; i < MAXID; i++) reqid[i] = NC_REQ_NULL;
             ncmpi_open(MPI_COMM_WORLD, path, NC_WRITE, info, &ncid);
-            ncmpi_inq_unlimdim(ncid, &dt); ncmpi_inq_varid(ncid, "rvar", &vr); ncmpi_inq_varid(ncid, "fvar", &vf);
+            ncmpi_inq_unlimdim(ncid, &dt); ncmpi_inq_varid(ncid, "rvar", &vr); ncmpi_inq_varid(ncid, "fvar", &vf); ncmpi_inq_varid(ncid, "svar", &vs);
         } else rc = -99999;
         MPI_Offset nr = -1;
         ncmpi_inq_dimlen(ncid, dt, &nr);
